@@ -276,3 +276,112 @@ def c20_sig(v):
     if c == "duplicate_ids" and isinstance(d, dict):
         return "dups:%s:%s" % (d.get("kind"), "concurrent" if d.get("goroutines", 1) > 1 else "sequential")
     return c
+
+
+# ------------------------------------------------------------------ engine-level properties
+ES_INV = ("C01_Prefix C02_Order C03_OneClose C03_ClosedIsFinal C04_Registry C04_NoUnderflow C12_PollReleased C11_NoStuckPoll "
+          "C08_AtMostOnce C08_FailureKeepsSession")
+
+
+def es_cfg(msgs, climsgs, polls, pings, feats, inv=ES_INV, dev="{}"):
+    return ("SPECIFICATION Spec\nCONSTANTS Msgs = %s CliMsgs = %s MaxPolls = %d MaxPings = %d Features = %s Deviations = %s\n"
+            "VIEW view\nINVARIANTS %s\nCHECK_DEADLOCK FALSE\n" % (msgs, climsgs, polls, pings, feats, dev, inv))
+
+
+ES_FAMS = {
+    # family: (quick model config, thorough model config, simulate config)
+    "flow": (("{1,2,3}", "{7}", 3, 0, '{"upgrade"}'), ("{1,2,3}", "{7,8}", 5, 0, '{"upgrade"}')),
+    "life": (("{1,2}", "{7}", 3, 1, '{"close","peer","heartbeat","overlap"}'), ("{1,2,3}", "{7,8}", 4, 2, '{"close","peer","heartbeat","overlap"}')),
+    "upg": (("{1,2}", "{7}", 3, 1, '{"upgrade","close","peer","heartbeat"}'), ("{1,2,3}", "{7}", 4, 1, '{"upgrade","close","peer","heartbeat"}')),
+    "poll": (("{1,2}", "{7}", 4, 0, '{"overlap","peer","close"}'), ("{1,2,3}", "{7,8}", 5, 1, '{"overlap","peer","close","heartbeat"}')),
+}
+MON_EIO_CFG = 'SPECIFICATION Spec\nCONSTANT TraceFile = "trace.ndjson"\nCHECK_DEADLOCK FALSE\n'
+
+
+def eng_run(ctx, fams, nrandom_q=60, nrandom_t=900, extra_fams=()):
+    """model-check EioSession for the families, replay simulated behaviours + seeded scripts, monitor with EioMon."""
+    q = ctx.quick
+    all_evs = []
+    viols = []
+    for fam in fams:
+        qc, tc = ES_FAMS[fam]
+        c = qc if q else tc
+        M.tlc_model(ctx, "EioSession", es_cfg(*c), "es_" + fam, timeout=1500, coverage=not q)
+        # the repaired deviations must still be what the old code did: sanity of the model (expected to be violated)
+        behs = M.tlc_simulate(ctx, "EioSession", es_cfg(*c, inv="Emit").replace("VIEW view\n", ""), "sim_" + fam,
+                              num=4 if q else 40, depth=28, seed=ctx.seed, cap=80 if q else 1200)
+        ctx.extra["behaviours_replayed"] = ctx.extra.get("behaviours_replayed", 0) + len(behs)
+        trace, summ = M.go_family(ctx, fam, behaviours=behs, nrandom=nrandom_q if q else nrandom_t, timeout=3000)
+        v, lines = M.tlc_trace(ctx, "EioMon", MON_EIO_CFG, fam, trace, timeout=3000)
+        evs = M.read_trace(trace)
+        st = summ.get("stats", {})
+        ctx.traces += st.get("scenarios", 0)
+        ctx.events += lines
+        ctx.extra["stalls"] = ctx.extra.get("stalls", 0) + st.get("stall", 0) + summ.get("wedges", 0)
+        viols += v
+        all_evs += evs
+        if behs and len(ctx.samples) < 2:
+            ctx.samples.append({"tlc_behaviour_of_EioSession": behs[0]})
+        scns = [e["scn"] for e in evs if e["e"] == "reset"]
+        if scns and len(ctx.samples) < 5:
+            ctx.samples.append(sample_trace(evs, scns[-1], 30))
+    for fam in extra_fams:
+        trace, summ = M.go_family(ctx, fam, nrandom=nrandom_q if q else nrandom_t, timeout=3000)
+        v, lines = M.tlc_trace(ctx, "EioMon", MON_EIO_CFG, fam, trace, timeout=3000)
+        evs = M.read_trace(trace)
+        ctx.traces += summ.get("stats", {}).get("scenarios", 0)
+        ctx.events += lines
+        viols += v
+        all_evs += evs
+        scns = [e["scn"] for e in evs if e["e"] == "reset"]
+        if scns and len(ctx.samples) < 6:
+            ctx.samples.append(sample_trace(evs, scns[0], 30))
+    ctx.extra["distinct_nontrivial"] = len({json.dumps([e["e"] for e in all_evs[i:i + 40]]) for i in range(0, len(all_evs), 40)})
+    ctx.extra["breaches_by_property"] = {}
+    for v in viols:
+        ctx.extra["breaches_by_property"][v.get("prop", "?")] = ctx.extra["breaches_by_property"].get(v.get("prop", "?"), 0) + 1
+    M.classify(ctx, viols)
+    return all_evs
+
+
+ENG_ASSUME = ["every yield-point window is instantaneous (gates are open while virtual time passes)",
+              "a scenario that stalls because a parked goroutine holds a lock is recorded as 'stall' and gives no verdict",
+              "message text excludes the 0x1e record separator; revision-3 binary payloads carry ASCII text only (see DESIGN.md limits)",
+              "ordering across an upgrade is demanded only of clients that wait for the probe pong and have no poll outstanding",
+              "breaches of other session-level properties found in the same traces are reported under their own property id"]
+ENG_RULE = ("one trace = one bubble run of a real engine.io server with 1-3 sessions driven by a TLC behaviour of EioSession.tla "
+            "(writer goroutines and the second half of OnClose stepped through verif gates) or by a seeded random script; "
+            "the TLA+ monitor EioMon.tla evaluates every session-level clause on every event")
+
+
+def eng_prop(pid, fams, extra=(), nq=60, nt=900):
+    @prop(pid)
+    def f(ctx):
+        evs = eng_run(ctx, fams, nq, nt, extra)
+        ctx.assumptions = ENG_ASSUME
+        return M.finish(ctx, rule=ENG_RULE, evs=evs)
+    return f
+
+
+eng_prop("C01", ["flow", "upg"])
+eng_prop("C02", ["flow", "poll"])
+eng_prop("C03", ["life"], nq=90)
+eng_prop("C04", ["life"], nq=90)
+BEAT_CFG = ("SPECIFICATION Spec\nCONSTANTS PI = %d PT = %d MaxNow = %d Delays = %s\n"
+            "INVARIANTS NoMissedPing NoMissedTimeout TimeoutExact AnsweredNeverClosed PingSchedule\nCHECK_DEADLOCK FALSE\n")
+
+
+@prop("C07")
+def c07(ctx):
+    q = ctx.quick
+    for pi, pt in ((3, 2), (2, 3)) if q else ((3, 2), (2, 3), (4, 4), (1, 5)):
+        M.tlc_model(ctx, "Beat", BEAT_CFG % (pi, pt, 16 if q else 24, "{99, 0, 1, 2, 3, 4}"), "beat_%d_%d" % (pi, pt))
+    evs = eng_run(ctx, ["life"] if not q else [], 120, 1500, ("beat",))
+    ctx.assumptions = ENG_ASSUME + ["a pong accepted at the very instant of the deadline: both outcomes (and both at once) are admitted",
+                                    "'the server sends a ping' is timed by the packetCreate event of the ping"]
+    return M.finish(ctx, rule="timed heartbeat model Beat.tla checked exhaustively over a grid of pong delays incl. the deadline; real sessions "
+                    "(polling and websocket, revisions 3 and 4, 9 interval/timeout pairs) driven on the same grid under the virtual clock", evs=evs)
+eng_prop("C08", ["upg"], nq=90)
+eng_prop("C11", ["poll"], nq=90)
+eng_prop("C12", ["life", "poll"])
+eng_prop("C18", ["flow"], nq=90)
